@@ -1716,13 +1716,16 @@ def replay_witnesses(ctx):
         except UnicodeDecodeError:
             pass
     if "C10-repetition-t2-index" in open_keys:
-        for t1, t2, kind in (([3, 1, 2], [4, 4, 3], "values_changed"), ([4, 4, 1], [1, 4, 2], "repetition_change")):
+        # third witness: repeated by HASH, not by == ((1, 3) / (3, 1) under ignore_order)
+        for t1, t2, kind in (([3, 1, 2], [4, 4, 3], "values_changed"), ([4, 4, 1], [1, 4, 2], "repetition_change"),
+                             ([(0,), (1, 3), (3, 1)], [(3,), (0,), (1, 3)], "repetition_change")):
             d = DeepDiff(t1, t2, ignore_order=True, report_repetition=True, view="tree")
             lv = list(d[kind])[0]
             rel = lv.up.t2_child_rel or lv.up.t1_child_rel
             if lv.up.t2[rel.param] == lv.t2:
                 ctx.break_("correspondence", {"name": "C10-repetition-t2-index witness", "detail": "C10_io_repetition_leaf_refuted's witness no longer fails on the implementation; model out of date", "impl": repr(d)})
-    for t1, t2 in (({"a": {1, 2}}, {"a": {1, 3}}), ([b"\xff"], [b"a"]), ([3, 1, 2], [4, 4, 3]), ([4, 4, 1], [1, 4, 2])):
+    for t1, t2 in (({"a": {1, 2}}, {"a": {1, 3}}), ([b"\xff"], [b"a"]), ([3, 1, 2], [4, 4, 3]), ([4, 4, 1], [1, 4, 2]),
+                   ([(0,), (1, 3), (3, 1)], [(3,), (0,), (1, 3)]), ([[1, [2, 3]], [[3, 2], 1], 0], [5, [1, [2, 3]]])):
         one_pair(ctx, t1, t2, [], corr=False)
     # C10_io_repetition_flat_t2_refuted: the witnesses and the satisfying example, observed
     for t1, t2 in (([3, 1, 2], [4, 4, 3]), ([4, 4, 1], [1, 4, 2]), ([1, 5], [7, 7, 5])):
